@@ -379,4 +379,182 @@ theorem exec_succ (n : Nat) (ih : AllSpec n) (b : Base) (s s' : St) (top : Act) 
   | cont l k => exact simple rfl
   | assign => exact simple rfl
 
+/-! ## Builtins -/
+
+def heapOK (n : Nat) (h : DataHeap) : Prop := ∀ a ∈ h.arrs, ∀ v ∈ a, vok n v = true
+
+/-- the pure builtins make storable values of storable values (Proofs/RunPrim.lean) -/
+def PrimOK : Prop := ∀ (n : Nat) (name : String) (args : List Val) (h h' : DataHeap) (v : Val),
+  (∀ a ∈ args, vok n a = true) → heapOK n h → prim name args h = some (v, h') → vok n v = true ∧ heapOK n h'
+
+/-- the source of a lazy argument, handed out as data, is storable -/
+def QuoteOK : Prop := ∀ (n : Nat) (e : Expr) (h h' : DataHeap) (v : Val),
+  heapOK n h → quoteE e h = (v, h') → vok n v = true ∧ heapOK n h'
+
+theorem WF.setHeap {s : St} (hw : WF s) (h' : DataHeap) (hh : heapOK s.fns.length h') : WF { s with heap := h' } :=
+  hw.mk' (TExt.same rfl rfl) (fun j h1 h2 => absurd h2 (Nat.not_lt.mpr h1)) hw.loopstack hw.scopes hh hw.lazies hw.data
+
+theorem kept_setHeap {s : St} (hw : WF s) (h' : DataHeap) (hh : heapOK s.fns.length h') : Kept s { s with heap := h' } :=
+  ⟨hw.setHeap h' hh, TExt.same rfl rfl, ⟨rfl, rfl, rfl, rfl, rfl, rfl⟩⟩
+
+theorem heap_get_vok {s : St} (hw : WF s) (r : Nat) : ∀ v ∈ s.heap.get r, vok s.fns.length v = true := by
+  intro v hv
+  unfold DataHeap.get at hv
+  rw [List.getD_eq_getElem?_getD] at hv
+  cases hr : s.heap.arrs[r]? with
+  | none => rw [hr] at hv; simp at hv
+  | some a => rw [hr] at hv; exact hw.heap a (List.mem_of_getElem? hr) v hv
+
+theorem heapOK_alloc {n : Nat} {h : DataHeap} (hh : heapOK n h) (vs : List Val) (hv : ∀ v ∈ vs, vok n v = true) :
+    heapOK n (h.alloc vs).2 := by
+  intro a ha v hva
+  simp only [DataHeap.alloc, List.mem_append, List.mem_cons, List.mem_nil_iff, or_false] at ha
+  rcases ha with ha | rfl
+  · exact hh a ha v hva
+  · exact hv v hva
+
+theorem listToArray_vok {n : Nat} : ∀ (l : Val) (xs : List Val), listToArray l = some xs → vok n l = true →
+    ∀ x ∈ xs, vok n x = true
+  | .nil, xs, h, _ => by simp [listToArray] at h; subst h; intro x hx; cases hx
+  | .pair a t, xs, h, hv => by
+    simp only [listToArray, Option.map_eq_some_iff] at h
+    obtain ⟨ys, hy, rfl⟩ := h
+    simp only [vok, Bool.and_eq_true] at hv
+    intro x hx
+    rcases List.mem_cons.mp hx with rfl | hx
+    · exact hv.1
+    · exact listToArray_vok t ys hy hv.2 x hx
+  | .bool _, _, h, _ => by simp [listToArray] at h
+  | .int _, _, h, _ => by simp [listToArray] at h
+  | .str _, _, h, _ => by simp [listToArray] at h
+  | .arr _, _, h, _ => by simp [listToArray] at h
+  | .fn _, _, h, _ => by simp [listToArray] at h
+  | .builtin _, _, h, _ => by simp [listToArray] at h
+  | .lazy _, _, h, _ => by simp [listToArray] at h
+  | .mark _, _, h, _ => by simp [listToArray] at h
+  | .sym _, _, h, _ => by simp [listToArray] at h
+
+theorem kept_vok_mono {s s' : St} (hk : Kept s s') {v : Val} (hv : vok s.fns.length v = true) : vok s'.fns.length v = true :=
+  vok_mono hk.ext.fns_len v hv
+
+theorem WF.setTrace {s : St} (hw : WF s) (t : List String) : Kept s { s with trace := t } :=
+  ⟨hw.mk' (TExt.same rfl rfl) (fun j h1 h2 => absurd h2 (Nat.not_lt.mpr h1)) hw.loopstack hw.scopes hw.heap hw.lazies hw.data,
+   TExt.same rfl rfl, ⟨rfl, rfl, rfl, rfl, rfl, rfl⟩⟩
+
+theorem headD_vok {n : Nat} (args : List Val) (ha : ∀ a ∈ args, vok n a = true) : vok n (args.headD .nil) = true := by
+  cases args with
+  | nil => rfl
+  | cons a r => exact ha a (by simp)
+
+theorem builtin_succ (hP : PrimOK) (hQ : QuoteOK) (n : Nat) (ih : AllSpec n) (name : String) (args : List Val) (s s' : St) (v : Val)
+    (hw : WF s) (ha : ∀ a ∈ args, vok s.fns.length a = true) (hex : (builtin (n + 1) name args).run s = (.ok v, s')) :
+    Kept s s' ∧ vok s'.fns.length v = true := by
+  unfold VM.builtin at hex
+  split at hex
+  · -- trace
+    simp only [run_bind, run_modify, run_pure] at hex
+    cases hex
+    exact ⟨hw.setTrace _, headD_vok args ha⟩
+  split at hex
+  · -- probe
+    simp only [run_bind, run_modify, run_pure] at hex
+    cases hex
+    exact ⟨hw.setTrace _, rfl⟩
+  split at hex
+  · -- force
+    split at hex
+    · exact ih.force _ s s' v hw hex
+    · rename_i w
+      simp only [run_pure] at hex
+      cases hex
+      exact ⟨Kept.refl hw, ha _ (by simp)⟩
+    · simp only [run_err] at hex; cases hex
+  split at hex
+  · -- substitute
+    split at hex
+    · rename_i id
+      rw [run_bind, run_get] at hex
+      dsimp only at hex
+      split at hex
+      · simp only [run_err] at hex; cases hex
+      · rename_i lz hlz
+        split at hex
+        · simp only [run_pure] at hex
+          cases hex
+          refine ⟨Kept.refl hw, ?_⟩
+          have hm := hw.lazies lz (List.mem_of_getElem? hlz)
+          cases hv : lz.value with
+          | none => rfl
+          | some w => exact hm.2 w hv
+        · rcases hq : quoteE lz.e s.heap with ⟨w, h'⟩
+          simp only [hq, run_bind, run_set, run_pure] at hex
+          cases hex
+          obtain ⟨h1, h2⟩ := hQ s.fns.length lz.e s.heap h' v hw.heap hq
+          exact ⟨kept_setHeap hw h' h2, h1⟩
+    · rename_i w
+      simp only [run_pure] at hex
+      cases hex
+      exact ⟨Kept.refl hw, ha _ (by simp)⟩
+    · simp only [run_err] at hex; cases hex
+  split at hex
+  · -- apply
+    split at hex
+    · rename_i f coll
+      split at hex
+      · simp only [run_err] at hex; cases hex
+      · rw [run_bind, run_get] at hex
+        dsimp only at hex
+        have hf := ha f (by simp)
+        have hc := ha coll (by simp)
+        split at hex
+        · rename_i r
+          exact ih.apply f _ s s' v hw hf (heap_get_vok hw r) hex
+        · rename_i a b
+          split at hex
+          · rename_i xs hxs
+            exact ih.apply f xs s s' v hw hf (listToArray_vok _ xs hxs hc) hex
+          · simp only [run_err] at hex; cases hex
+        · simp only [run_err] at hex; cases hex
+    · simp only [run_err] at hex; cases hex
+  split at hex
+  · -- map
+    split at hex
+    · rename_i f coll
+      split at hex
+      · simp only [run_err] at hex; cases hex
+      · have hf := ha f (by simp)
+        have hc := ha coll (by simp)
+        split at hex
+        · rename_i r
+          rw [run_bind, run_get] at hex
+          dsimp only at hex
+          rw [run_bind] at hex
+          rcases hm : (mapArr n f r 0 (s.heap.get r).length).run s with ⟨rr, s1⟩
+          rw [hm] at hex
+          cases rr with
+          | error e => cases hex
+          | ok vs =>
+            dsimp only at hex
+            rw [run_bind, run_get] at hex
+            dsimp only at hex
+            obtain ⟨hk, hvs⟩ := ih.mapArr f r 0 _ s s1 vs hw hf hm
+            simp only [run_bind, run_set, run_pure] at hex
+            cases hex
+            have hh := heapOK_alloc hk.wf.heap vs hvs
+            exact ⟨hk.trans (kept_setHeap hk.wf _ hh), rfl⟩
+        · rename_i a b
+          exact ih.mapList f _ s s' v hw hf hc hex
+        · simp only [run_err] at hex; cases hex
+    · simp only [run_err] at hex; cases hex
+  · -- the pure builtins
+    rw [run_bind, run_get] at hex
+    dsimp only at hex
+    split at hex
+    · rename_i w h' hp
+      simp only [run_bind, run_set, run_pure] at hex
+      cases hex
+      obtain ⟨h1, h2⟩ := hP s.fns.length name args s.heap h' v ha hw.heap hp
+      exact ⟨kept_setHeap hw h' h2, h1⟩
+    · simp only [run_err] at hex; cases hex
+
 end ZygoVerif.RunInv
